@@ -42,8 +42,18 @@ Proof. intros. unfold clean_rooted. rewrite clean_acc_id by assumption. reflexiv
 Lemma clean_rooted_idem l : clean_rooted (clean_rooted l) = clean_rooted l.
 Proof. apply clean_rooted_id, clean_rooted_names. Qed.
 
-Definition no_dotdot (l : list seg) : bool :=
-  forallb (fun s => match s with SDotDot => false | _ => true end) l.
+(** [no_dotdot] is defined in Model/Address.v (the model of address.IsValid uses it) *)
+Lemma all_names_no_dotdot l : all_names l = true -> no_dotdot l = true.
+Proof.
+  induction l as [|s l IH]; simpl; [reflexivity|].
+  destruct s; try discriminate. exact IH.
+Qed.
+
+Lemma norm_path_names p : all_names p = true -> norm_path p = p.
+Proof. destruct p as [|[] [|]]; try reflexivity; discriminate. Qed.
+
+Lemma no_dotdot_norm_path p : no_dotdot p = true -> no_dotdot (norm_path p) = true.
+Proof. destruct p as [|[] [|]]; auto. Qed.
 
 (** without ".." the kept prefix is never touched *)
 Lemma clean_acc_no_dotdot l : forall acc, no_dotdot l = true ->
@@ -83,6 +93,9 @@ Proof.
 Qed.
 
 Section AddressProofs.
+  (** the mechanism switch of address.IsValid: every lemma of this section that mentions
+      [rd] holds for both values (the code as it stands and the pinned commit) *)
+  Variable rd : bool.
   Variable cid_decode : N -> option N.
   Variable Hac : list N -> N.
   Variable H : list seg * N * N -> N.
@@ -95,9 +108,9 @@ Section AddressProofs.
   Hypothesis H_inj : forall x y, H x = H y -> x = y.
   Hypothesis Hac_inj : forall x y, Hac x = Hac y -> x = y.
 
-  Notation determine := (determine_address cid_decode Hac H types).
+  Notation determine := (determine_address rd cid_decode Hac H types).
   Notation manifest := (manifest_cid Hac H).
-  Notation parse := (parse_split cid_decode).
+  Notation parse := (parse_split rd cid_decode).
 
   (** ** the address is a function of name, type and effective write list *)
   Lemma addr_function :
@@ -110,23 +123,32 @@ Section AddressProofs.
     - reflexivity.
   Qed.
 
+  (** ** a printed clean address parses to its parts, whatever the switch *)
+  Lemma parse_clean (rd' : bool) x c rest :
+    cid_decode x = Some c -> all_names rest = true ->
+    parse_split rd' cid_decode (print_rooted (SName orbitdb_tok :: SName x :: rest)) = Ok (c, rest).
+  Proof.
+    intros Hx Hr. unfold parse_split, print_rooted. cbn [trim_orbitdb]. rewrite N.eqb_refl.
+    rewrite Hx, (all_names_no_dotdot _ Hr), andb_false_r, (norm_path_names _ Hr). reflexivity.
+  Qed.
+
   (** ** shape of a successful parse of a printed cleaned path *)
   Lemma parse_printed cs r p :
     all_names cs = true ->
     parse (print_rooted cs) = Ok (r, p) ->
     exists x, cs = SName orbitdb_tok :: SName x :: p /\ cid_decode x = Some r.
   Proof.
-    intros Hc. unfold parse_split, print_rooted.
-    destruct cs as [|a [|b rest]].
-    - simpl. discriminate.
-    - simpl in *. destruct a; try discriminate.
+    intros Hc. destruct cs as [|a [|b rest]].
+    - unfold parse_split, print_rooted. simpl. discriminate.
+    - unfold parse_split, print_rooted. simpl in *. destruct a; try discriminate.
     - simpl in Hc. destruct a as [| | |o]; try discriminate.
       destruct b as [| | |x]; try discriminate. simpl in Hc.
-      cbn [trim_orbitdb]. destruct (o =? orbitdb_tok) eqn:Eo.
-      + apply N.eqb_eq in Eo. subst o. destruct (cid_decode x) as [c|] eqn:Ex; [|discriminate].
-        intros E. inversion E; subst. exists x. split; [|exact Ex].
-        f_equal. f_equal. destruct rest as [|[] [|]]; try reflexivity; discriminate.
-      + discriminate.
+      destruct (o =? orbitdb_tok) eqn:Eo.
+      + apply N.eqb_eq in Eo. subst o. destruct (cid_decode x) as [c|] eqn:Ex.
+        * rewrite (parse_clean rd x c rest Ex Hc). intros E. inversion E; subst.
+          exists x. auto.
+        * unfold parse_split, print_rooted. cbn [trim_orbitdb]. rewrite N.eqb_refl, Ex. discriminate.
+      + unfold parse_split, print_rooted. cbn [trim_orbitdb]. rewrite Eo. discriminate.
   Qed.
 
   Lemma determine_ok rc c name typ w r p :
@@ -136,8 +158,8 @@ Section AddressProofs.
   Proof.
     unfold determine_address, e_unknown_type, e_name_is_address, e_not_an_address, e_root_mismatch.
     destruct (negb (memN typ types)); [discriminate|].
-    destruct (is_valid cid_decode name); [discriminate|].
-    destruct (parse_split _ _) as [[r' p']| |]; try discriminate.
+    destruct (is_valid rd cid_decode name); [discriminate|].
+    destruct (parse_split _ _ _) as [[r' p']| |]; try discriminate.
     destruct rc; simpl.
     - destruct (r' =? _) eqn:E; simpl; [|discriminate].
       intros X; inversion X; subst. apply N.eqb_eq in E. auto.
@@ -161,20 +183,50 @@ Section AddressProofs.
     inversion E2 as [[En Et Ea]]. apply Hac_inj in Ea. auto.
   Qed.
 
-  (** ** every produced address (checked or not) prints and parses back to itself *)
-  Lemma addr_roundtrip rc c name typ w a :
+  (** ** an address with a canonical root and a clean path prints and parses back to itself,
+      whatever the switch of the parser *)
+  Lemma addr_roundtrip_clean (rd' : bool) (a : N * list seg) :
+    cid_decode (fst a) = Some (fst a) -> all_names (snd a) = true ->
+    addr_parse rd' cid_decode (addr_string a) = Ok a.
+  Proof.
+    destruct a as [r p]. cbn [fst snd]. intros Hr Hp.
+    unfold addr_parse, addr_string, join_orbitdb. cbn [fst snd].
+    rewrite clean_rooted_id by exact Hp.
+    apply parse_clean; assumption.
+  Qed.
+
+  (** ** every produced address (checked or not, by either version of IsValid) has a
+      canonical root and a clean path, and prints and parses back to itself (with either
+      version of Parse) *)
+  Lemma addr_produced_clean rc c name typ w a :
     determine rc c name typ w = Ok a ->
-    addr_parse cid_decode (addr_string a) = Ok a.
+    cid_decode (fst a) = Some (fst a) /\ all_names (snd a) = true.
   Proof.
     destruct a as [r p]. intros E. apply determine_ok in E as [E _].
     apply parse_printed in E as [x [Ecs Ex]]; [|apply clean_rooted_names].
     pose proof (clean_rooted_names (SName orbitdb_tok :: SName (manifest c name typ w) :: name)) as Hn.
     fold (join_orbitdb (manifest c name typ w) name) in Hn. rewrite Ecs in Hn. simpl in Hn.
-    unfold addr_parse, addr_string, join_orbitdb. cbn [fst snd].
-    rewrite clean_rooted_id by exact Hn.
-    unfold parse_split, print_rooted. cbn [trim_orbitdb]. rewrite N.eqb_refl.
-    rewrite (decode_canon _ _ Ex). f_equal. f_equal.
-    destruct p as [|[] [|]]; try reflexivity; discriminate.
+    cbn [fst snd]. split; [exact (decode_canon _ _ Ex)|exact Hn].
+  Qed.
+
+  Lemma addr_roundtrip (rd' : bool) rc c name typ w a :
+    determine rc c name typ w = Ok a ->
+    addr_parse rd' cid_decode (addr_string a) = Ok a.
+  Proof.
+    intros E. apply addr_produced_clean in E as [Hr Hp].
+    apply addr_roundtrip_clean; assumption.
+  Qed.
+
+  (** ** an address whose path has no ".." prints and parses back to the same root and the
+      cleaned path (with either version of Parse) *)
+  Lemma addr_reprint_no_dotdot (rd' : bool) (a : N * list seg) :
+    cid_decode (fst a) = Some (fst a) -> no_dotdot (snd a) = true ->
+    addr_parse rd' cid_decode (addr_string a) = Ok (fst a, clean_rooted (snd a)).
+  Proof.
+    destruct a as [r p]. cbn [fst snd]. intros Hr Hp.
+    unfold addr_parse, addr_string. cbn [fst snd].
+    rewrite join_no_dotdot by exact Hp.
+    apply parse_clean; [exact Hr|apply clean_rooted_names].
   Qed.
 
   (** ** names without ".." are unaffected by the missing check *)
@@ -184,16 +236,19 @@ Section AddressProofs.
   Proof.
     intros Hn. unfold determine_address.
     destruct (negb (memN typ types)); [reflexivity|].
-    destruct (is_valid cid_decode name); [reflexivity|].
-    rewrite join_no_dotdot by exact Hn.
-    unfold parse_split, print_rooted. cbn [trim_orbitdb]. rewrite N.eqb_refl.
-    unfold manifest_cid. rewrite H_cid. rewrite N.eqb_refl. reflexivity.
+    destruct (is_valid rd cid_decode name); [reflexivity|].
+    rewrite join_no_dotdot by exact Hn. unfold manifest_cid.
+    rewrite (parse_clean rd _ _ _ (H_cid _) (clean_rooted_names name)).
+    rewrite N.eqb_refl. reflexivity.
   Qed.
 
-  (** ** this commit (no root check): two different names, one address.
+  (** ** no root check: two different names, one address.
       For any segment [c0] that is a CID (for instance the manifest CID of another
       database) the names "../c0/y" and "./../c0/y" are accepted for every creator,
-      registered type and write list, and both give the address /orbitdb/c0/y. *)
+      registered type and write list, and both give the address /orbitdb/c0/y.
+      Neither name is an address for either version of IsValid (the first part is not a
+      CID), and the ".." is gone from the joined path before Parse sees it: the witness
+      does not depend on [rd]. *)
   Lemma addr_refuted_unchecked (c0 c0' y : N) :
     cid_decode c0 = Some c0' ->
     exists n1 n2, n1 <> n2 /\
@@ -206,10 +261,10 @@ Section AddressProofs.
     split; [discriminate|]. intros c typ w Ht.
     unfold determine_address. rewrite Ht. simpl.
     unfold is_valid, parse_split, join_orbitdb, clean_rooted. simpl.
-    rewrite Hc. simpl. auto.
+    rewrite Hc. simpl. rewrite andb_false_r. auto.
   Qed.
 
-  (** hence the root of an address produced by this commit need not be its manifest *)
+  (** hence the root of an address produced without the root check need not be its manifest *)
   Lemma addr_refuted_root_unchecked (c0 c0' c typ : N) (w : list N) :
     cid_decode c0 = Some c0' -> memN typ types = true ->
     exists name r p,
@@ -223,6 +278,64 @@ Section AddressProofs.
       intros E2. rewrite E in E2. unfold manifest_cid in E2. apply H_inj in E2.
       apply Hne. congruence.
     - exists n1, c0', [SName 0]. auto.
+  Qed.
+
+  (** * What the ".." test of IsValid changes *)
+
+  (** ** with the test, a parsed address has a canonical root and no ".." in its path; so
+      (by [addr_reprint_no_dotdot]) its printed form designates the same root *)
+  Lemma parsed_no_dotdot s a :
+    parse_split true cid_decode s = Ok a ->
+    cid_decode (fst a) = Some (fst a) /\ no_dotdot (snd a) = true.
+  Proof.
+    unfold parse_split. destruct (trim_orbitdb s) as [|[| | |x] rest]; try discriminate.
+    destruct (cid_decode x) as [c|] eqn:Ex; [|discriminate].
+    destruct (no_dotdot rest) eqn:Hn; simpl; [|discriminate].
+    intros E. inversion E; subst. cbn [fst snd].
+    split; [exact (decode_canon _ _ Ex)|apply no_dotdot_norm_path; exact Hn].
+  Qed.
+
+  Lemma parsed_reprint s a :
+    addr_parse true cid_decode s = Ok a ->
+    no_dotdot (snd a) = true /\
+    forall rd' : bool,
+      addr_parse rd' cid_decode (addr_string a) = Ok (fst a, clean_rooted (snd a)).
+  Proof.
+    intros E. apply parsed_no_dotdot in E as [Hr Hp].
+    split; [exact Hp|]. intros rd'. apply addr_reprint_no_dotdot; assumption.
+  Qed.
+
+  (** ** without the test (pinned commit) the printed form of a parsed address can designate
+      another root: "c0/../c1/y" parses to root c0 and prints as /orbitdb/c1/y *)
+  Lemma parsed_reprint_refuted_untested (c0 c0' c1 c1' y : N) :
+    cid_decode c0 = Some c0' -> cid_decode c1 = Some c1' ->
+    exists s a,
+      addr_parse false cid_decode s = Ok a /\ fst a = c0' /\
+      addr_parse true cid_decode s = Err EBadInput /\
+      forall rd' : bool, addr_parse rd' cid_decode (addr_string a) = Ok (c1', [SName y]).
+  Proof.
+    intros H0 H1.
+    exists [SName c0; SDotDot; SName c1; SName y], (c0', [SDotDot; SName c1; SName y]).
+    unfold addr_parse, addr_string, parse_split, join_orbitdb, clean_rooted. simpl.
+    rewrite H0. simpl. rewrite H1. simpl.
+    repeat split; auto. intros rd'. rewrite andb_false_r. reflexivity.
+  Qed.
+
+  (** ** DetermineAddress: the name "c0/x/.." (c0 a CID) was refused as being an address; with
+      the test it is not an address any more, path.Join cleans it to "c0", and (content
+      addresses being CIDs) the result is the address (manifest, "c0") *)
+  Lemma name_with_dotdot_not_address (c0 c0' x : N) rc c typ w :
+    cid_decode c0 = Some c0' -> memN typ types = true ->
+    let name := [SName c0; SName x; SDotDot] in
+    determine_address false cid_decode Hac H types rc c name typ w = Err EDenied /\
+    determine_address true cid_decode Hac H types rc c name typ w
+      = Ok (manifest c name typ w, [SName c0]).
+  Proof.
+    intros H0 Ht name. unfold determine_address. rewrite Ht. simpl.
+    unfold is_valid, parse_split. subst name. simpl. rewrite H0. simpl.
+    split; [reflexivity|].
+    unfold join_orbitdb, clean_rooted, manifest_cid. simpl. rewrite H_cid. simpl.
+    rewrite N.eqb_refl, andb_false_r. reflexivity.
   Qed.
 
 End AddressProofs.
